@@ -278,6 +278,7 @@ class Prog:
     def __init__(self, rng, client, handles, weights, scripts, counter):
         self.rng, self.c, self.h, self.w, self.scripts = rng, client, dict(handles), weights, scripts
         self.polled = set()
+        self.types = ["1", "2"]
         self.ops = []
         self.counter = counter
 
@@ -294,6 +295,29 @@ class Prog:
                 return True
             if op == "sleep":
                 self.ops.append({"op": "sleep", "d": rng.randint(1, 3)})
+                return True
+            if op in ("from_registry", "setup", "unregister", "try_from_registry", "already_running"):
+                o = {"op": op, "ty": rng.choice(self.types)}
+                if op in ("from_registry", "unregister", "try_from_registry"):
+                    nh = self.fresh()
+                    o["nh"] = nh
+                    self.h[nh] = "addr"
+                self.ops.append(o)
+                return True
+            if op in ("register", "replace"):
+                cands = [x for x, k in self.h.items() if k == "addr"]
+                if not cands:
+                    continue
+                x = rng.choice(sorted(cands))
+                o = {"op": op, "h": x, "nh2": self.fresh()}
+                self.h[o["nh2"]] = "addr"
+                del self.h[x]
+                if op == "register":
+                    o["nh"] = self.fresh()
+                    self.h[o["nh"]] = "addr"
+                    if x in self.polled:
+                        self.polled.add(o["nh"])
+                self.ops.append(o)
                 return True
             cands = [x for x, k in self.h.items() if k in COMPAT[op]]
             if op in ("await", "await_ref"):
